@@ -82,10 +82,21 @@ Proof.
     split; [rewrite EP; reflexivity|discriminate].
 Qed.
 
-Lemma R_checkRaw n t : R n t -> fst (checkRaw hash n) = EOk /\ R (snd (checkRaw hash n)) t.
+Definition not_raw (n : node) : Prop := match n with NRaw _ _ => False | _ => True end.
+
+Lemma parse_once_not_raw t : not_raw (parse_once hash t).
+Proof. destruct t; simpl; auto; destruct l; simpl; auto. Qed.
+Lemma parse_lazy_not_raw t : not_raw (parse_lazy t).
+Proof. destruct t; simpl; auto; destruct l; simpl; auto. Qed.
+
+Lemma R_checkRaw n t : R n t ->
+  fst (checkRaw hash n) = EOk /\ R (snd (checkRaw hash n)) t /\ not_raw (snd (checkRaw hash n)).
 Proof.
-  intros (E & A & IA & IO). destruct n; simpl in *; try discriminate; try (split; [reflexivity|]; unfold R; auto; fail).
-  subst t. split; auto. destruct lock; [apply R_parse_once | apply R_parse_lazy].
+  intros (E & A & IA & IO). destruct n; simpl in E; try discriminate; cbn [checkRaw fst snd not_raw];
+    try (split; [reflexivity|split; [unfold R; auto|exact I]]; fail).
+  simpl in A. subst t. split; auto. destruct lock.
+  - split; [apply R_parse_once | apply parse_once_not_raw].
+  - split; [apply R_parse_lazy | apply parse_lazy_not_raw].
 Qed.
 
 Lemma type_of_abs n : exists_ n = true -> type_of_node n = type_of (abs n).
@@ -125,13 +136,11 @@ Lemma add_refines n t v : R n t ->
   R (snd (run_op hash [] (OpAdd v) n)) (snd (spec_op [] (OpAdd v) t)).
 Proof.
   intros HR. destruct (abs_mk_value hash v) as (EV & AV). destruct v as [r tv]. simpl in AV.
-  assert (HN : match n with NNone | NError _ => False | _ => True end).
-  { destruct HR as (E & _). destruct n; simpl in E; try discriminate; exact I. }
   assert (Hrun : run_op hash [] (OpAdd (r, tv)) n = op_add hash (mk_value hash (r, tv)) n).
-  { destruct n; try contradiction; reflexivity. }
+  { destruct HR as (E & _). destruct n; simpl in E; try discriminate; reflexivity. }
   rewrite Hrun. unfold op_add.
-  destruct (R_checkRaw n t HR) as (EC & HR1).
-  destruct (checkRaw hash n) as [e n1]. simpl in EC, HR1. subst e. simpl.
+  destruct (R_checkRaw n t HR) as (EC & HR1 & NR).
+  destruct (checkRaw hash n) as [e n1]. cbn [fst snd] in EC, HR1, NR. subst e. cbn [err_ok negb].
   destruct HR1 as (E1 & A1 & IA1 & IO1).
   set (val := mk_value hash (r, tv)) in *.
   assert (NEWARR : R (NewArray [val]) (TArr [tv])).
@@ -139,34 +148,52 @@ Proof.
     unfold R, NewArray. rewrite abs_newArray, TL. unfold live_abs. cbn [filter map]. rewrite EV. cbn [map]. rewrite AV.
     split; [reflexivity|split; [reflexivity|split; [|exact I]]].
     unfold newArray, arr_inv. split; [exact WF|]. rewrite TL. cbn [filter]. rewrite EV. reflexivity. }
-  destruct n1; simpl in *; try discriminate; subst t; try (split; [reflexivity|unfold R; auto; fail]).
-  - (* null *) split; auto.
+  cbn [spec_op].
+  destruct n1; simpl in E1; try discriminate; try contradiction; subst t.
+  - (* null *) cbn [abs spec_apply fst snd]. split; [reflexivity|exact NEWARR].
+  - cbn [is_array negb abs spec_apply fst snd]. split; [reflexivity|]. unfold R; auto.
+  - cbn [is_array negb abs spec_apply fst snd]. split; [reflexivity|]. unfold R; auto.
+  - cbn [is_array negb abs spec_apply fst snd]. split; [reflexivity|]. unfold R; auto.
+  - cbn [is_array negb abs spec_apply fst snd]. split; [reflexivity|]. unfold R; auto.
   - (* lazy array *)
-    destruct IA1 as (W & L & AL & NE).
+    cbn [arr_inv] in IA1. destruct IA1 as (W & L & AL & NE).
     destruct (decodeArray_abs hash CSkip v rest W AL NE) as (A2 & A3).
-    unfold unsafeArray, skipAllIndex. unfold decodeArray in *. destruct rest as [|t0 rest]; [congruence|].
+    rewrite abs_array_lazy. cbn [is_array negb unsafeArray skipAllIndex spec_apply fst snd].
+    unfold decodeArray in *. destruct rest as [|t0 rest]; [congruence|].
     set (v2 := pushall v (map (child_of hash CSkip) (t0 :: rest))) in *.
-    unfold newArray in *. simpl in A3. destruct A3 as (W2 & L2).
+    unfold newArray in *. cbn [arr_inv] in A3. destruct A3 as (W2 & L2).
     destruct (Push_spec NNone v2 val W2) as (P1 & P2 & P3). fold (NPush v2 val) in P1, P2, P3.
-    simpl. rewrite to_list_lmap, live_abs_eq.
-    split; auto. unfold R. rewrite abs_array, P1, live_abs_app.
-    rewrite abs_array in A2. inversion A2 as [A2']. rewrite A2'.
-    unfold live_abs at 2. simpl. rewrite EV. simpl. rewrite AV.
-    repeat split; auto. rewrite P1, filter_app, app_length. simpl. rewrite EV. simpl. lia.
+    assert (UA : unsafeArray hash (NArrayLazy l v (t0 :: rest)) = NArray (size v2) (Some v2)) by reflexivity.
+    rewrite UA. split; [reflexivity|]. cbn [fst snd].
+    rewrite abs_array in A2. inversion A2 as [A2'].
+    unfold R. split; [reflexivity|]. split.
+    + rewrite abs_array, P1, live_abs_app, A2'. unfold live_abs at 2. cbn [filter map]. rewrite EV. cbn [map]. now rewrite AV.
+    + split; [|exact I]. cbn [arr_inv]. split; [exact P2|].
+      rewrite P1, filter_app, app_length. cbn [filter]. rewrite EV. cbn [length]. lia.
+  - (* lazy object *) cbn [is_array negb spec_apply fst snd]. rewrite abs_object_lazy. cbn [spec_apply fst snd].
+    split; [reflexivity|]. unfold R. rewrite abs_object_lazy. auto.
   - (* loaded array *)
-    destruct v0 as [s|].
-    + destruct IA1 as (W & L).
+    cbn [is_array negb].
+    destruct v as [s|].
+    + cbn [arr_inv] in IA1. destruct IA1 as (W & L).
       destruct (Push_spec NNone s val W) as (P1 & P2 & P3). fold (NPush s val) in P1, P2, P3.
-      simpl. rewrite to_list_lmap, live_abs_eq.
-      split; auto. unfold R. rewrite abs_array, P1, live_abs_app.
-      unfold live_abs at 2. simpl. rewrite EV. simpl. rewrite AV.
-      repeat split; auto. rewrite P1, filter_app, app_length. simpl. rewrite EV. simpl. lia.
-    + simpl. destruct emptyN_spec as (W & EE).
+      assert (UA : unsafeArray hash (NArray l (Some s)) = NArray l (Some s)) by reflexivity.
+      rewrite UA. rewrite abs_array. cbn [spec_apply fst snd]. split; [reflexivity|].
+      unfold R. split; [reflexivity|]. split.
+      * rewrite abs_array, P1, live_abs_app. unfold live_abs at 2. cbn [filter map]. rewrite EV. cbn [map]. now rewrite AV.
+      * split; [|exact I]. cbn [arr_inv]. split; [exact P2|].
+        rewrite P1, filter_app, app_length. cbn [filter]. rewrite EV. cbn [length]. lia.
+    + destruct emptyN_spec as (W & EE).
       destruct (Push_spec NNone emptyN val W) as (P1 & P2 & P3). fold (NPush emptyN val) in P1, P2, P3.
-      split; auto. unfold R. rewrite abs_array, P1, EE. unfold live_abs. simpl. rewrite EV. simpl. rewrite AV.
-      repeat split; auto. rewrite P1, EE. simpl. rewrite EV. simpl. lia.
-  - (* loaded object: unsupported, unchanged *)
-    destruct v0; split; auto; unfold R; auto.
+      assert (UA : unsafeArray hash (NArray l None) = NArray (size emptyN) (Some emptyN)) by reflexivity.
+      rewrite UA. cbn [abs spec_apply fst snd]. split; [reflexivity|].
+      unfold R. split; [reflexivity|]. split.
+      * rewrite abs_array, P1, EE. unfold live_abs. cbn [app filter map]. rewrite EV. cbn [map]. now rewrite AV.
+      * split; [|exact I]. cbn [arr_inv]. split; [exact P2|]. rewrite P1, EE. cbn [app filter]. rewrite EV. reflexivity.
+  - (* loaded object *) cbn [is_array negb fst snd].
+    destruct v as [s|].
+    + rewrite abs_object. cbn [spec_apply fst snd]. split; [reflexivity|]. unfold R. rewrite abs_object. auto.
+    + cbn [abs spec_apply fst snd]. split; [reflexivity|]. unfold R. auto.
 Qed.
 
 (* node_refines_tree_partial *)
@@ -196,25 +223,30 @@ Proof.
       destruct (run hash ops n1), (spec_run ops t). simpl in *. subst. auto.
 Qed.
 
+Lemma R_build_full t : R (build_full hash t) t.
+Proof.
+  destruct (build_full_ok hash t) as (E & A). unfold R. split; auto. split; auto.
+  destruct t; try (simpl; auto; fail).
+  - cbn [build_full]. split; [|exact I]. unfold NewArray, newArray. cbn [arr_inv].
+    destruct (FromSlice_spec NNone (map (build_full hash) l)) as (WF & TL). split; [exact WF|].
+    rewrite TL. rewrite filter_all.
+    + cbn [FromSlice size]. reflexivity.
+    + clear. induction l; simpl; auto. destruct (build_full_ok hash a) as (E & _). now rewrite E.
+  - cbn [build_full]. split; [exact I|]. unfold NewObject, newObject. cbn [pv obj_inv].
+    destruct (THRESHOLD <? _); cbn [pv]; apply FromSlice_spec.
+Qed.
+
 (* from every document, in every initial representation *)
 Theorem node_refines_tree_partial_from_doc : forall v ops,
   forallb frag ops = true ->
   fst (run hash ops (mk_value hash v)) = fst (spec_run ops (snd v)).
 Proof.
   intros v ops HF. apply node_refines_tree_partial; auto.
-  destruct (abs_mk_value hash v) as (E & A). destruct v as [r t]. simpl in *.
-  destruct r; simpl.
+  destruct v as [r t]. destruct r; cbn [mk_value fst snd].
   - unfold R. simpl. auto.
   - unfold R. simpl. auto.
   - apply R_parse_lazy.
-  - unfold R. split; auto. split; auto.
-    destruct t; simpl; auto.
-    + split; auto. split; [apply FromSlice_spec|].
-      rewrite FromSlice_list.
-      assert (H : forallb exists_ (map (build_full hash) l) = true).
-      { clear. induction l; simpl; auto. destruct (build_full_ok hash a) as (E & _). now rewrite E. }
-      now rewrite filter_all, map_length, (proj2 (FromSlice_spec NNone _)) by auto.
-    + split; auto. unfold NewObject, newObject. cbn [pv]. destruct (THRESHOLD <? _); simpl; apply FromSlice_spec.
+  - apply R_build_full.
 Qed.
 
 End WithHash.
